@@ -409,7 +409,10 @@ class Check(CheckBase):
             "un-deduplicated op sequences to depth d (quick 2 / thorough 3) on fresh objects; every edge "
             "compared with a bytes-slice reference; raw-sector (MDF) view additionally for EVERY sector count 1..159 (thorough "
             "..639) x ragged tail {0,100} with the real constants and 1..63 x tail 0..6 with tiny ones, each under a fixed "
-            "probe program (size, whole content, reads across the first / middle / last sector boundaries); 27 configurations of TWO "
+            "probe program (size, whole content, reads across the first / middle / last sector boundaries); five real-size stacks (20 000-byte "
+            "reversed window, 25 000-byte offset window, 6 x 8192 chained file, the Roland shape reversed-over-window-over-4 x 9216 "
+            "chained file, 12 raw sectors) probed with LONG reads (4096..20 000 bytes and to the end: several internal buffers, two and "
+            "more whole sectors inside one read) from 7 start positions; 27 configurations of TWO "
             "views over one shared parent, over two parents with different bytes at the same addresses, or one over the other (two windows, wrapper + window, two chained files of one partition window, the same file "
             "twice, two nested sample stacks, reversed + forward window over one chained file, two windows over one raw-sector view): "
             "BFS over the union of both views' alphabets plus direct seeks / reads on the shared parent, product state, to depth 3 "
@@ -439,6 +442,10 @@ class Check(CheckBase):
                 out.append({"mode": "sizes", "hbf": [16, 2048, 288], "lo": lo, "hi": min(hi, lo + 16), "rag": rag})
         for rag in range(0, 7):
             out.append({"mode": "sizes", "hbf": [2, 4, 1], "lo": 1, "hi": 64, "rag": rag})
+        # long views and LONG READS (more than one internal 4096-byte buffer, two and more whole sectors in the middle of one
+        # read): fixed probe programs on real-size stacks
+        for k in ("reversed", "file8192", "file9216-reversed", "mdf-real", "offset"):
+            out.append({"mode": "long", "kind": k})
         # two views over one shared parent: product graph of both views' histories (plus direct use of the parent)
         for c in pair_configs():
             out.append({"mode": "pairbfs", "cfg": c, "maxdepth": 3 if self.quick else 0})
@@ -450,6 +457,8 @@ class Check(CheckBase):
             return self._replay(shard["replay_case"], rep)
         if shard["mode"] == "sizes":
             return self._sizes(shard, rep)
+        if shard["mode"] == "long":
+            return self._long(shard, rep)
         cfg = shard["cfg"]
         with cfg_ctx(cfg):
             if shard["mode"] == "pairbfs":
@@ -609,6 +618,54 @@ class Check(CheckBase):
         rep.extra["pair_graph_sizes"] = f"{cfg['pair']}:{states}"
         rep.extra["max_bfs_depth"] = max(rep.extra.get("max_bfs_depth", 0), max_depth)
 
+    def _long_build(self, kind):
+        S, SEC, F, MDF = _mods()
+        if kind == "reversed":
+            raw = base_bytes(20000 + 3)
+            return S.StreamReversed(io.BytesIO(raw), 20000, sample_width=2), rev_words(raw[:20000], 2), 2, 4096
+        if kind == "offset":
+            raw = base_bytes(30000)
+            return S.StreamOffset(io.BytesIO(raw), 25000, 1234), raw[1234:1234 + 25000], 0, 4096
+        if kind == "file8192":
+            chain = [5, 1, 4, 0, 3, 2]
+            raw = base_bytes(8192 * 6 + 1)
+            return F.FileStream(io.BytesIO(raw), 8192, list(chain)), chain_logical(raw, 8192, chain), 0, 8192
+        if kind == "file9216-reversed":
+            # the Roland shape: sample-reversed window over a window over a cluster-chained file
+            chain = [3, 0, 2, 1]
+            raw = base_bytes(0x2400 * 4 + 2)
+            seg = chain_logical(raw, 0x2400, chain)
+            off, L = 100, 30000
+            inner = S.StreamOffset(F.FileStream(io.BytesIO(raw), 0x2400, list(chain)), L, off)
+            return S.StreamReversed(inner, L, sample_width=2), rev_words(seg[off:off + L], 2), 2, 0x2400
+        if kind == "mdf-real":
+            raw = base_bytes(2352 * 12)
+            return MDF.MdfStream(io.BytesIO(raw)), mdf_logical(raw, 16, 2048, 288), 0, 2048
+        raise core.HarnessError(kind)
+
+    def _long(self, shard, rep):
+        kind = shard["kind"]
+        stream, content, width, s_ = self._long_build(kind)
+        L = len(content)
+        sizes = sorted({4096, 4098, 8192, 8194, 3 * s_, 3 * s_ + 2, 2 * s_ + 4096, 16384, 18434, 20000, L, L + 2, -1})
+        starts = sorted({0, 2, s_ - 2, s_, s_ + 2, 4096, L - 8194 if L > 8194 else 0})
+        prog = []
+        for o in starts:
+            for n in sizes:
+                prog += [["seek", o, 0], ["read", n]]
+        cfg = {"kind": "long:" + kind, "s": s_}
+        model = RefFile(content, width)
+        for i, op in enumerate(prog):
+            ok, klass, detail, dead = step(stream, model, op, width)
+            rep.transitions += 1
+            if not ok:
+                rep.case({"cfg": cfg, "ops": prog[max(0, i - 1):i + 1], "long": kind}, ok=False, klass=klass, detail=detail, sig=f"long-{kind}:{klass}")
+                return
+            if op[0] == "read":
+                rep.case({"cfg": cfg, "ops": prog[i - 1:i + 1], "long": kind}, klass="long-read-ok", nontrivial=True)
+        rep.states += len(prog)
+        rep.traces += 1
+
     def _sizes(self, shard, rep):
         h, b, f = shard["hbf"]
         for n in range(shard["lo"], shard["hi"]):
@@ -636,6 +693,12 @@ class Check(CheckBase):
 
     def _replay(self, case, rep):
         cfg = case["cfg"]
+        if "long" in case:
+            sub = Report()
+            self._long({"kind": case["long"]}, sub)
+            rep.case(case, ok=not sub.viol_count, klass="long", detail=sub.violations[0]["detail"] if sub.violations else None,
+                     sig=sub.violations[0]["sig"] if sub.violations else "long")
+            return
         if "pair" in cfg:
             with cfg_ctx(cfg):
                 objs, models, widths = self._pair_fresh(cfg)
